@@ -149,19 +149,19 @@ def no_nl(k, *cps):
     return True
 
 
-@lemma('T2.progress', 'C01', quick=[{'reader': r, 'k': k} for r in READERS for k in (1, 2)],
-       thorough=[{'reader': r, 'k': k} for r in READERS for k in (1, 2, 3)], timeout=600, per_path=90,
+@lemma('T2.progress', 'C01', quick=[{'reader': r, 'k': k} for r in READERS for k in (1, 2, 3)],
+       thorough=[{'reader': r, 'k': k} for r in READERS for k in (1, 2, 3, 4)], timeout=600, per_path=90,
        covers=['block_tokenizer.py:tokenize_block', 'block_tokenizer.py:FileWrapper.backstep', 'block_token.py:Quote.read',
                'block_token.py:Paragraph.read', 'block_token.py:ListItem.read', 'block_token.py:BlockCode.read', 'block_token.py:Footnote.read'],
        note='one symbolic line (k code points over Σ, no newline) at the second position of a 5-line frame; cursor position symbolic (0..4): '
             'read() returning None leaves the cursor where it was, otherwise the cursor has strictly advanced and is within the buffer')
-def t2_progress(c1: int, c2: int, c3: int, pos: int) -> bool:
+def t2_progress(c1: int, c2: int, c3: int, c4: int, pos: int) -> bool:
     """
-    pre: all_ok(cp_ok, P('k'), c1, c2, c3) and no_nl(P('k'), c1, c2, c3) and 0 <= pos <= 4
+    pre: all_ok(cp_ok, P('k'), c1, c2, c3, c4) and no_nl(P('k'), c1, c2, c3, c4) and 0 <= pos <= 4
     post: _
     """
     from mistletoe import block_token as bt, block_tokenizer as btk, token as tokmod
-    x = S(P('k'), c1, c2, c3)
+    x = S(P('k'), c1, c2, c3, c4)
     lines = [x + '\n' if ln is None else ln for ln in FRAME]
     T = _reader(P('reader'))
     fw = btk.FileWrapper(list(lines))
@@ -225,7 +225,7 @@ def t2_dispatch(c1: int, c2: int, n: int) -> bool:
 # -------------------------------------------------------------------------------- T3 constructs
 
 SKELETONS = {
-    'emphasis': '*a{}b* **c**\n', 'code-span': 'x `a{}b` y\n', 'link': '[a{}](/u "t")\n', 'image': '![a](/u{} "t")\n',
+    'image-alt': '![a{}b *c*](/u)\n', 'emphasis': '*a{}b* **c**\n', 'code-span': 'x `a{}b` y\n', 'link': '[a{}](/u "t")\n', 'image': '![a](/u{} "t")\n',
     'ref-link': '[a][l{}]\n\n[l]: /u\n', 'autolink': '<http://a{}>\n', 'html-span': 'a <b{}> c\n', 'entity': 'a &am{}p; b\n',
     'escape': 'a \\{} b\n', 'strike': '~~a{}~~\n', 'hard-break': 'a  {}\nb\n', 'heading': '# a{} #\n', 'setext': 'a{}\n===\n',
     'fence': '```p{}y\nx\n```\n', 'indented': '    a{}\n\n    b\n', 'quote': '> a{}\n> b\n', 'quote-lazy': '> a\n{}b\n',
@@ -236,7 +236,7 @@ SKELETONS = {
 }
 
 
-@lemma('T3.constructs', 'C01', quick=[{'sk': s, 'g': g} for s in ('empty-quote', 'empty-item', 'emphasis', 'table', 'fence', 'link') for g in GROUPS_FINITE],
+@lemma('T3.constructs', 'C01', quick=[{'sk': s, 'g': g} for s in ('empty-quote', 'empty-item', 'emphasis', 'table', 'fence', 'link', 'image-alt') for g in GROUPS_FINITE],
        thorough=[{'sk': s, 'g': g} for s in sorted(SKELETONS) for g in GROUPS_FINITE], timeout=900, per_path=150,
        stubs=['urllib.parse.quote -> contract stub', 'pygments -> stubs'],
        covers=['block_token.py:Document.__init__', 'base_renderer.py:BaseRenderer.render'],
